@@ -181,12 +181,157 @@ def model_k(real_ops_done, exists):
     return k
 
 
+def size_limited_save(fmt, cfg, limit, states, work):
+    """A save on a file system that takes only `limit` bytes per file (a full disk, a quota, RLIMIT_FSIZE with
+    SIGXFSZ ignored): the operating system itself accepts part of a write and refuses the rest — a buffered
+    writer sees the error, a raw one only a short count.  Returns (did save_sensors raise, class of what a
+    fresh start loads, did the next save without the limit persist the state)."""
+    import resource
+    import signal
+    d = os.path.join(work, f"quota-{fmt}")
+    os.makedirs(d, exist_ok=True)
+    main = os.path.join(d, f"state.{fmt}")
+    for p in (main, main + ".bak", pu.tmp_name(main)):
+        pu.put(p, None)
+    if cfg == "good":
+        pu.put(main, pu.save_bytes(states["old"], work, fmt))
+    sensors = dict(states["new"])
+    pers = pu.persistence_for(sensors, main)
+    soft, hard = resource.getrlimit(resource.RLIMIT_FSIZE)
+    old_handler = signal.signal(signal.SIGXFSZ, signal.SIG_IGN)
+    raised = None
+    try:
+        resource.setrlimit(resource.RLIMIT_FSIZE, (limit, hard))
+        try:
+            pers.save_sensors()
+        except OSError as e:
+            raised = "OSError"
+        except Exception as e:  # noqa: BLE001
+            raised = type(e).__name__
+    finally:
+        resource.setrlimit(resource.RLIMIT_FSIZE, (soft, hard))
+        signal.signal(signal.SIGXFSZ, old_handler)
+    projs = {n: pu.project(dict(v), transient=True) for n, v in states.items()}
+    gw = pu.make_gateway("2.2", persistence_file=main)
+    try:
+        gw.tasks.persistence.safe_load_sensors()
+        loaded = pu.project(gw.sensors)
+        cls = next((n for n, p in projs.items() if p == loaded), "emptyNet" if loaded == "-" else "other")
+    except BaseException as e:  # noqa: BLE001
+        cls = "raised:" + type(e).__name__
+    pers.need_save = True
+    try:
+        pers.save_sensors()
+        e2, s2 = pu.fresh_load(main)
+        nxt = e2 is None and pu.project(s2) == projs["new"]
+    except Exception:  # noqa: BLE001
+        nxt = False
+    return raised, cls, nxt
+
+
+def size_limit_part(res, states, work, tier):
+    for fmt in pu.FORMATS:
+        full = len(pu.save_bytes(states["new"], work, fmt))
+        limits = [0, 1, 17, 100, full // 2, full - 1] if tier == "quick" else \
+            sorted(set([0, 1, 2, 17, 64, 100, 128, full // 4, full // 2, full - 17, full - 2, full - 1, full]))
+        for cfg in ("none", "good"):
+            for limit in limits:
+                raised, cls, nxt = size_limited_save(fmt, cfg, limit, states, work)
+                res.evaluations += 1
+                res.count(f"size-limit:{fmt}:{'raised' if raised else 'returned'}")
+                res.distinct.add(digest(["quota", fmt, cfg, limit]))
+                allowed = {"new"} | ({"old"} if cfg == "good" else {"emptyNet"})
+                rep = {"op": "size-limit", "fmt": fmt, "cfg": cfg, "limit": limit}
+                what = None
+                if cls not in allowed:
+                    what = f"a start-up load gives '{cls}', not the old or the new state"
+                elif raised is None and limit < full and cls != "new":
+                    what = f"save_sensors returned normally but a start-up load gives '{cls}'"
+                elif not nxt:
+                    what = "the next save (space available again) did not persist the current state"
+                if what:
+                    res.oracle_failures.append({
+                        "key": {"kind": "size-limit", "fmt": fmt, "cfg": cfg, "loaded": cls},
+                        "what": f"{fmt}, prior file {cfg}: the file system takes {limit} of the {full} bytes of the new "
+                                f"file (save_sensors {'raised ' + raised if raised else 'returned normally'}): {what}",
+                        "replay": rep})
+
+
+def linked_save(fmt, mode, at, states, work):
+    """The configured persistence file is a symbolic link to a file of another name in another directory (a
+    data volume).  A save over the good old file with a crash or a failing operation at `at`; then a fresh
+    start on the configured path, one more save, another load.  Returns (number of operations of a complete
+    save, class loaded, next save fine?)."""
+    import shutil
+    base = os.path.join(work, f"linked-{fmt}")
+    shutil.rmtree(base, ignore_errors=True)
+    conf_dir, data_dir = os.path.join(base, "conf"), os.path.join(base, "volume")
+    os.makedirs(conf_dir)
+    os.makedirs(data_dir)
+    target = os.path.join(data_dir, f"network-data.{fmt}")
+    pu.put(target, pu.save_bytes(states["old"], work, fmt))
+    named = os.path.join(conf_dir, f"state.{fmt}")
+    os.symlink(target, named)
+    sensors = dict(states["new"])
+    pers = pu.persistence_for(sensors, named)
+    shim = pu.FsShim(mode=mode, at=at) if mode else pu.FsShim()
+    with shim.installed():
+        try:
+            pers.save_sensors()
+        except (pu.Crash, OSError):
+            pass
+    nops = len(shim.ops)
+    projs = {n: pu.project(dict(v), transient=True) for n, v in states.items()}
+    gw = pu.make_gateway("2.2", persistence_file=named)
+    try:
+        gw.tasks.persistence.safe_load_sensors()
+        loaded = pu.project(gw.sensors)
+        cls = next((n for n, p in projs.items() if p == loaded), "emptyNet" if loaded == "-" else "other")
+    except BaseException as e:  # noqa: BLE001
+        return nops, "raised:" + type(e).__name__, False
+    try:
+        gw.sensors.update({k: v for k, v in states["next"].items() if k not in gw.sensors})
+        want = pu.project(gw.sensors)
+        gw.tasks.persistence.need_save = True
+        gw.tasks.persistence.save_sensors()
+        e2, s2 = pu.fresh_load(named)
+        nxt = e2 is None and pu.project(s2) == want
+    except Exception:  # noqa: BLE001
+        nxt = False
+    return nops, cls, nxt
+
+
+def linked_part(res, states, work):
+    for fmt in pu.FORMATS:
+        nops, cls, nxt = linked_save(fmt, None, 0, states, work)
+        points = [("crash", i) for i in range(nops + 1)] + [("fail", i) for i in range(nops)]
+        for mode, at in [(None, 0)] + points:
+            _n, cls, nxt = linked_save(fmt, mode, at, states, work)
+            res.evaluations += 1
+            res.count("linked-file:" + (mode or "complete"))
+            res.distinct.add(digest(["linked", fmt, mode, at]))
+            bad = None
+            if cls not in (("new",) if mode is None else ("old", "new")):
+                bad = f"a start-up on the configured path loads '{cls}'"
+            elif not nxt:
+                bad = "the next save did not persist the current state"
+            if bad:
+                res.oracle_failures.append({
+                    "key": {"kind": "linked-file", "fmt": fmt, "mode": mode or "complete", "loaded": cls},
+                    "what": f"{fmt}: the configured file is a symbolic link to a file on another directory; "
+                            f"{'a complete save' if mode is None else f'a {mode} at operation {at} of the save'}: {bad}",
+                    "replay": {"op": "linked-file", "fmt": fmt, "mode": mode, "at": at}})
+
+
 def run(tier, seed, driver):
     res = Result()
     rng = random.Random(seed * 7919 + 12)
     work = tempfile.mkdtemp(prefix="verif-c12-")
     try:
         _run(res, rng, tier, driver, work)
+        states = build_states(random.Random(seed * 7919 + 12))[0]
+        size_limit_part(res, states, work, tier)
+        linked_part(res, states, work)
     finally:
         pu.rmtree(work)
     return res
@@ -467,6 +612,15 @@ def replay(payload):
     work = tempfile.mkdtemp(prefix="verif-c12-")
     try:
         states, script = build_states(rng)
+        if r.get("op") == "linked-file":
+            _n, cls, nxt = linked_save(r["fmt"], r["mode"], r["at"], states, work)
+            print(f"a start-up on the configured path loads: {cls}; the next save persisted the state: {nxt}")
+            return 1 if cls not in ("old", "new") or not nxt else 0
+        if r.get("op") == "size-limit":
+            raised, cls, nxt = size_limited_save(r["fmt"], r["cfg"], r["limit"], states, work)
+            print(f"save_sensors raised: {raised}; a start-up loads: {cls}; the next save persisted the state: {nxt}")
+            allowed = {"new"} | ({"old"} if r["cfg"] == "good" else {"emptyNet"})
+            return 1 if cls not in allowed or (raised is None and cls != "new") or not nxt else 0
         states = family_states(states, r.get("family", "chain"))
         projs = {"old": pu.project(states["old"])}
         projs.update({n: pu.project(s) for n, s in states.items() if n != "old"})
